@@ -51,5 +51,11 @@ theorem bary_edge_functions (a b c p : Pt) :
   simp only [baryS, baryT, areaDoubled]
   refine ⟨?_, ?_, ?_, ?_⟩ <;> ring
 
+
+/-- `s` is the edge function of the edge `v3 v1`. -/
+theorem baryS_eq_edge31 (a b c p : Pt) :
+    baryS ⟨a, b, c⟩ p = (a.x - c.x) * (p.y - c.y) - (a.y - c.y) * (p.x - c.x) := by
+  simp only [baryS]; ring
+
 end Triangle
 end EG
